@@ -35,7 +35,14 @@ def handle : List String → String
     | none => "bad-op"
     | some jobs =>
       let n := (visitJobs lower jobs []).1.length
-      let orders := if mode = "all" then perms (List.range n) else [List.range n]
+      -- "all": every iteration order of the node map (what the theorems quantify over);
+      -- "pos": nodes in source-position order (what detectFirstCycle does since the determinism fix)
+      let nodes := (visitJobs lower jobs []).1
+      let byPos := (List.range n).toArray.qsort (fun a b =>
+        let pa := (nodes[a]?.map (·.pos)).getD ⟨0, 0⟩
+        let pb := (nodes[b]?.map (·.pos)).getD ⟨0, 0⟩
+        pa.isBefore pb) |>.toList
+      let orders := if mode = "all" then perms (List.range n) else if mode = "pos" then [byPos] else [List.range n]
       let runs := orders.map fun o => check lower jobs o
       let common := match runs with
         | r :: _ => dedupSorted ((r.filter (!isCyc ·)).map diagS)
